@@ -18,8 +18,11 @@ import (
 	"sort"
 	"strconv"
 	"strings"
+	"sync"
+	"time"
 
 	"github.com/DataDog/datadog-go/v5/statsd"
+	"github.com/mustafaturan/bus"
 	"go.uber.org/zap"
 
 	"github.com/mimiro-io/datahub/internal/conf"
@@ -40,6 +43,9 @@ type VerifC14Op struct {
 	Src    int      `json:"src"`
 	Sink   int      `json:"sink"`
 	Paused bool     `json:"paused"`
+	Trig   int      `json:"trig"`  // addjob: -1 (or absent with Cron) = cron trigger, k >= 0 = onchange trigger monitoring d<k>
+	Cron   bool     `json:"cron"`  // addjob: explicit cron trigger (default when trig is not given)
+	Sets   [][]int  `json:"sets"`  // pubnsm: [dataset, public namespaces...] per meta entity of the one batch
 	Delay  int      `json:"delay"` // > 0: the trigger carries a reRun error handler with this retryDelay (seconds)
 	C      string   `json:"c"`
 	Acl    []int    `json:"acl"`
@@ -76,7 +82,8 @@ type VerifC14Snap struct {
 	Ctx     map[string][]string     `json:"ctx"`
 	Get     [][]int                 `json:"get"`
 	Rel     [][]int                 `json:"rel"`
-	Jobs    [][]int                 `json:"jobs"` // [job, paused, source, sink, number of error handlers, retryDelay of the reRun handler]
+	Hang    bool                    `json:"hang,omitempty"` // an event-triggered run did not finish
+	Jobs    [][]int                 `json:"jobs"` // [job, paused, source, sink, number of error handlers, retryDelay of the reRun handler, monitored dataset or -1]
 	Jraw    []string                `json:"jraw"` // the stored job configurations as JSON
 	Tok     [][]int                 `json:"tok"`
 	Sched   []int                   `json:"sched"`
@@ -125,7 +132,39 @@ func verifC14Keys() error {
 	return nil
 }
 
+// verifC14Bus is the hub's real event bus (server.NewBus) with one change: a dataset subscription that fires is
+// queued instead of started right away; the driver delivers the queued runs one at a time after the op that emitted
+// them (the hub starts them as goroutines while the request goes on; at the next quiescent point the result is the same).
+type verifC14Trig struct {
+	id string
+	f  func(e *bus.Event)
+	e  *bus.Event
+}
+
+type verifC14Bus struct {
+	inner   *server.MEventBus
+	mu      sync.Mutex
+	pending []verifC14Trig
+}
+
+func (b *verifC14Bus) Init(datasets []server.DatasetName) { b.inner.Init(datasets) }
+func (b *verifC14Bus) RegisterTopic(ds string)            { b.inner.RegisterTopic(ds) }
+func (b *verifC14Bus) UnregisterTopic(ds string)          { b.inner.UnregisterTopic(ds) }
+func (b *verifC14Bus) UnsubscribeToDataset(id string)     { b.inner.UnsubscribeToDataset(id) }
+func (b *verifC14Bus) Emit(ctx context.Context, topicName string, data interface{}) {
+	b.inner.Emit(ctx, topicName, data)
+}
+func (b *verifC14Bus) SubscribeToDataset(id string, matcher string, f func(e *bus.Event)) {
+	b.inner.SubscribeToDataset(id, matcher, func(e *bus.Event) {
+		b.mu.Lock()
+		b.pending = append(b.pending, verifC14Trig{id: id, f: f, e: e})
+		b.mu.Unlock()
+	})
+}
+
 type verifC14Env struct {
+	bus   *verifC14Bus
+	hang  bool
 	dir   string
 	cfg   *conf.Config
 	store *server.Store
@@ -148,7 +187,12 @@ func (env *verifC14Env) open() {
 		RunnerConfig:            &conf.RunnerConfig{PoolIncremental: 10, PoolFull: 5, Concurrent: 0},
 	}
 	sd := &statsd.NoOpClient{}
-	bus := server.NoOpBus()
+	rb, err := server.NewBus(env.cfg)
+	if err != nil {
+		panic(err)
+	}
+	bus := &verifC14Bus{inner: rb.(*server.MEventBus)}
+	env.bus = bus
 	env.store = server.NewStore(env.cfg, sd)
 	env.dsm = server.NewDsManager(env.cfg, env.store, bus)
 	env.pm = security.NewProviderManager(env.cfg, env.store, logger)
@@ -168,6 +212,47 @@ func (env *verifC14Env) close() {
 		_ = env.store.Close()
 		env.store = nil
 	}
+}
+
+const verifC14Rounds = 30
+
+// drain delivers the queued event-triggered runs: the runs triggered by one op in job-id order, one at a time, each
+// waited for (its job result is rewritten and its ticket returned); the runs they trigger form the next round
+func (env *verifC14Env) drain() {
+	for round := 0; round < verifC14Rounds; round++ {
+		env.bus.mu.Lock()
+		batch := env.bus.pending
+		env.bus.pending = nil
+		env.bus.mu.Unlock()
+		if len(batch) == 0 {
+			return
+		}
+		sort.SliceStable(batch, func(a, b int) bool { return verifC14JobCode(batch[a].id) < verifC14JobCode(batch[b].id) })
+		for _, t := range batch {
+			prev := &jobResult{}
+			_ = env.store.GetObject(server.JobResultIndex, t.id, prev)
+			t.f(t.e)
+			deadline := time.Now().Add(60 * time.Second)
+			for {
+				cur := &jobResult{}
+				_ = env.store.GetObject(server.JobResultIndex, t.id, cur)
+				env.run.raffle.runningMu.Lock()
+				_, running := env.run.raffle.runningJobs[t.id]
+				env.run.raffle.runningMu.Unlock()
+				if !running && cur.ID != "" && !cur.Start.Equal(prev.Start) {
+					break
+				}
+				if time.Now().After(deadline) {
+					env.hang = true
+					break
+				}
+				time.Sleep(200 * time.Microsecond)
+			}
+		}
+	}
+	env.bus.mu.Lock()
+	env.bus.pending = nil
+	env.bus.mu.Unlock()
 }
 
 func verifC14DsName(k int) string {
@@ -472,7 +557,13 @@ func (env *verifC14Env) snapshot(probe []int) (s VerifC14Snap) {
 				has++
 			}
 		}
-		s.Jobs = append(s.Jobs, []int{verifC14JobCode(jc.ID), p, verifC14DsCode(src), verifC14DsCode(snk), has, delay})
+		trig := -1
+		for _, t := range jc.Triggers {
+			if t.TriggerType == TriggerTypeOnChange {
+				trig = verifC14DsCode(t.MonitoredDataset)
+			}
+		}
+		s.Jobs = append(s.Jobs, []int{verifC14JobCode(jc.ID), p, verifC14DsCode(src), verifC14DsCode(snk), has, delay, trig})
 		raw, _ := json.Marshal(jc)
 		s.Jraw = append(s.Jraw, string(raw))
 	}
@@ -503,7 +594,12 @@ func (env *verifC14Env) snapshot(probe []int) (s VerifC14Snap) {
 			s.Sched = append(s.Sched, verifC14JobCode(id))
 		}
 	}
+	// jobs with a dataset subscription on the event bus
+	for _, id := range env.bus.inner.Bus.HandlerKeys() {
+		s.Sched = append(s.Sched, verifC14JobCode(id))
+	}
 	sort.Ints(s.Sched)
+	s.Hang = env.hang
 	s.Hist = make([][]int, 0)
 	for _, h := range env.sched.GetJobHistory() {
 		f := 0
@@ -634,6 +730,9 @@ func (env *verifC14Env) post(name string, start bool, fsID string, end bool, es 
 			return "err", err
 		}
 	}
+	// the handler emits the dataset events so that subscribers can react
+	env.bus.Emit(context.Background(), "dataset."+name, nil)
+	env.bus.Emit(context.Background(), "dataset.core.Dataset", nil)
 	return "ok", nil
 }
 
@@ -692,6 +791,37 @@ func (env *verifC14Env) apply(op VerifC14Op) (res string, err error) {
 		if err := env.dsm.GetDataset("core.Dataset").StoreEntities([]*server.Entity{ent}); err != nil {
 			return "err", err
 		}
+	case "pubnsm":
+		// one batch into core.Dataset carrying the meta entities of several datasets
+		info, err := env.store.NamespaceManager.GetDatasetNamespaceInfo()
+		if err != nil {
+			return "err", err
+		}
+		ents := make([]*server.Entity, 0)
+		for _, set := range op.Sets {
+			name := verifC14DsName(set[0])
+			if !env.dsm.IsDataset(name) {
+				return "err", fmt.Errorf("no dataset %s", name)
+			}
+			ent, err := env.store.GetEntity(info.DatasetPrefix+":"+name, []string{"core.Dataset"}, true)
+			if err != nil || ent == nil {
+				return "err", fmt.Errorf("no meta entity: %v", err)
+			}
+			if _, ok := ent.Properties[info.NameKey]; !ok {
+				return "err", fmt.Errorf("no meta entity")
+			}
+			pub := make([]interface{}, 0)
+			for _, x := range set[1:] {
+				pub = append(pub, verifC14Exp(x))
+			}
+			ent.Properties[info.PublicNamespacesKey] = pub
+			ents = append(ents, ent)
+		}
+		if len(ents) > 0 {
+			if err := env.dsm.GetDataset("core.Dataset").StoreEntities(ents); err != nil {
+				return "err", err
+			}
+		}
 	case "w":
 		return env.post(verifC14DsName(op.Ds), false, "", false, op.Es)
 	case "fsstart":
@@ -705,10 +835,14 @@ func (env *verifC14Env) apply(op VerifC14Op) (res string, err error) {
 		if op.Delay > 0 {
 			onErr = fmt.Sprintf(`,"onError":[{"errorHandler":"reRun","maxRetries":2,"retryDelay":%d}]`, op.Delay)
 		}
+		trigger := fmt.Sprintf(`{"triggerType":"cron","jobType":"incremental","schedule":"@every 2000s"%s}`, onErr)
+		if op.Trig >= 0 && !op.Cron {
+			trigger = fmt.Sprintf(`{"triggerType":"onchange","jobType":"incremental","monitoredDataset":"%s"}`, verifC14DsName(op.Trig))
+		}
 		js := fmt.Sprintf(`{"id":"%s","title":"%s","paused":%v,
-			"triggers":[{"triggerType":"cron","jobType":"incremental","schedule":"@every 2000s"%s}],
+			"triggers":[%s],
 			"source":{"Type":"DatasetSource","Name":"%s"},"sink":{"Type":"DatasetSink","Name":"%s"}}`,
-			verifC14JobID(op.Job), verifC14JobID(op.Job), op.Paused, onErr, verifC14DsName(op.Src), verifC14DsName(op.Sink))
+			verifC14JobID(op.Job), verifC14JobID(op.Job), op.Paused, trigger, verifC14DsName(op.Src), verifC14DsName(op.Sink))
 		jc, err := env.sched.Parse([]byte(js))
 		if err != nil {
 			return "err", err
@@ -816,6 +950,7 @@ func verifC14Exec(c VerifC14Case, dir string, withRestarts bool, obs *VerifC14Ob
 			continue
 		}
 		r, e := env.apply(op)
+		env.drain()
 		res = append(res, r)
 		if e != nil {
 			errs = append(errs, e.Error())
